@@ -911,6 +911,12 @@ func genPersist(id int) O {
 				a.AEB = true
 				a.Nodes["n1"].Branches = []mach.ABranch{{HasPat: true, Pat: map[string]interface{}{"nope": 1.0}, Target: "n0"}}
 			}
+			// (sometimes for a machine that was created without bindings: what the error state records of them has to
+			// survive the round trip, too)
+			if nilStart = p(0.4); nilStart {
+				// ... and its very first step is the failing action
+				a.Nodes["n0"] = a.Nodes["n1"]
+			}
 		}
 		for len(ms) < 3 {
 			ms = append(ms, pick(msgs))
@@ -925,8 +931,14 @@ func genPersist(id int) O {
 	if len(saveAt) == 0 {
 		saveAt = []int{len(ms) - 1}
 	}
+	if nilStart {
+		nilStart = false
+		return persistCase(id, a, nil, ms, saveAt)
+	}
 	return persistCase(id, a, genBs(b), ms, saveAt)
 }
+
+var nilStart bool
 
 func max(a, b int) int {
 	if a > b {
